@@ -14,7 +14,7 @@ HASH=$( (cd "$REPO" && find src include external -type f \( -name '*.cpp' -o -na
 OUT="$VERIF/build/lib-$FLAVOR-$HASH"
 if [ -f "$OUT/libgdstk.a" ]; then echo "$OUT"; exit 0; fi
 # prune old caches of this flavor (keep the 40 most recent and anything younger than 2 h)
-ls -dt "$VERIF"/build/lib-$FLAVOR-* 2>/dev/null | tail -n +41 | while read d; do [ -n "$(find "$d" -maxdepth 0 -mmin +120)" ] && rm -rf "$d"; done
+ls -dt "$VERIF"/build/lib-$FLAVOR-* 2>/dev/null | tail -n +41 | while read d; do if [ -n "$(find "$d" -maxdepth 0 -mmin +120)" ]; then rm -rf "$d"; fi; done || true
 TMP="$OUT.tmp.$$"
 rm -rf "$TMP"; mkdir -p "$TMP"
 SRCS=$(ls "$REPO"/src/*.cpp "$REPO"/external/clipper/clipper.cpp)
